@@ -41,6 +41,17 @@ fn cross_flags(rng: &mut Rng, pool: &[Vec<String>], flags: &[u32], max_t: u32) -
     out
 }
 
+/// three-level repetition structures with characters that need escaping, under `-r` (thresholds 1/1) and the given settings
+fn deep_nested(flags: &[u32]) -> Vec<Case> {
+    let mut out = vec![];
+    for t in gen::deep_nested_words() {
+        for f in flags {
+            out.push(Case { tcs: t.clone(), cfg: Cfg::new(gen::normalise_flags(*f | (1 << BIT_REP))) });
+        }
+    }
+    out
+}
+
 /// Same build with one setting changed, through the same entry point.
 fn rebuild(case: &Case, f: impl Fn(Cfg) -> Cfg) -> (Case, Built) {
     let c = Case { tcs: case.tcs.clone(), cfg: f(case.cfg) };
@@ -58,7 +69,8 @@ pub fn plan<'a>(ctx: &'a Ctx, rng: &mut Rng, tier: Tier) -> Plan<'a> {
         "C01" => {
             let pools = pools_for(ctx, rng, tier, &[("meta", gen::META), ("clusters", gen::CLUSTERS), ("ws", gen::WS), ("case", gen::CASE), ("lookalike", gen::LOOKALIKE), ("boundary", gen::BOUNDARY)]);
             let flags = gen::flag_rows(rng, REGEX_FLAGS);
-            let cases = cross_flags(rng, &pools.all(), &flags, 3);
+            let mut cases = cross_flags(rng, &pools.all(), &flags, 3);
+            cases.extend(deep_nested(&[0, mask(&[BIT_VERB]), mask(&[BIT_ESC]), mask(&[BIT_CAP, BIT_CI]), mask(&[BIT_NO_END])]));
             Plan {
                 cases,
                 judge: Box::new(|c, b| judge::judge_sound(c, b)),
@@ -245,6 +257,7 @@ pub fn plan<'a>(ctx: &'a Ctx, rng: &mut Rng, tier: Tier) -> Plan<'a> {
                     cases.push(Case { tcs: t.clone(), cfg: Cfg::new(flags[(k * 7 + j * 13) % flags.len()]) });
                 }
             }
+            cases.extend(deep_nested(&[mask(&[BIT_VERB]), mask(&[BIT_ESC]), mask(&[BIT_CAP]), mask(&[BIT_VERB, BIT_ESC, BIT_CAP])]));
             Plan {
                 cases,
                 judge: Box::new(|c, b| {
@@ -292,6 +305,7 @@ pub fn plan<'a>(ctx: &'a Ctx, rng: &mut Rng, tier: Tier) -> Plan<'a> {
             cases.push(Case { tcs: big, cfg: Cfg::new(mask(&[BIT_DIGIT, BIT_VERB])) });
             cases.push(Case { tcs: vec!["ab".repeat(if quick { 200 } else { 1500 })], cfg: Cfg::new(0) });
             cases.push(Case { tcs: vec!["abcab".repeat(if quick { 20 } else { 60 })], cfg: Cfg::new(mask(&[BIT_REP])) });
+            cases.extend(deep_nested(&[0, mask(&[BIT_VERB]), mask(&[BIT_ESC]), mask(&[BIT_ESC, BIT_SUR]), mask(&[BIT_CAP, BIT_CI]), mask(&[BIT_COLOR]), mask(&[BIT_NO_START, BIT_NO_END, BIT_VERB])]));
             Plan {
                 cases,
                 judge: Box::new(|c, b| judge::judge_valid(c, b)),
@@ -305,6 +319,11 @@ pub fn plan<'a>(ctx: &'a Ctx, rng: &mut Rng, tier: Tier) -> Plan<'a> {
             let abc = gen::words(&["a", "b", "c"], 2);
             let mut pool = gen::subsets(&ab, if quick { 3 } else { 4 });
             pool.extend(gen::subsets(&abc, if quick { 3 } else { 4 }));
+            // characters of different UTF-8 widths (byte order, byte length and character count all disagree somewhere)
+            let mixed = gen::words(&["a", "\u{e9}"], 3);
+            pool.extend(gen::subsets(&mixed, 4));
+            let mixed3 = gen::words(&["z", "\u{e9}", "\u{20ac}"], 2);
+            pool.extend(gen::subsets(&mixed3, if quick { 3 } else { 4 }));
             let cl = gen::words(&["\u{1100}", "\u{1161}", "\u{1f1e9}", "\u{1f1ea}", "a"], 3);
             pool.extend(gen::sample_subsets(rng, &cl, 3, if quick { 300 } else { 3000 }));
             let anchors = [mask(&[BIT_NO_START]), mask(&[BIT_NO_END]), mask(&[BIT_NO_START, BIT_NO_END]), 0];
@@ -416,6 +435,7 @@ pub fn plan<'a>(ctx: &'a Ctx, rng: &mut Rng, tier: Tier) -> Plan<'a> {
                     cases.push(Case { tcs: t.clone(), cfg: Cfg::new(flags[(k + j * 5) % flags.len()]) });
                 }
             }
+            cases.extend(deep_nested(&[mask(&[BIT_ESC]), mask(&[BIT_ESC, BIT_SUR]), mask(&[BIT_ESC, BIT_VERB]), mask(&[BIT_ESC, BIT_CAP])]));
             Plan {
                 cases,
                 judge: Box::new(|c, b| {
@@ -494,6 +514,7 @@ pub fn plan<'a>(ctx: &'a Ctx, rng: &mut Rng, tier: Tier) -> Plan<'a> {
             let pools = pools_for(ctx, rng, tier, &[("colorish", gen::COLORISH), ("meta", gen::META), ("ws", gen::WS)]);
             let flags = gen::flag_rows(rng, &[0, 2, 4, 5, 6, 7, 8, 9, 10, 11, 12, 13]);
             let mut cases = cross_flags(rng, &pools.all(), &flags, 3);
+            cases.extend(deep_nested(&[0, mask(&[BIT_VERB]), mask(&[BIT_ESC]), mask(&[BIT_CAP])]));
             for c in cases.iter_mut() {
                 c.cfg = c.cfg.with(BIT_COLOR);
             }
